@@ -164,10 +164,9 @@ Definition exp_ndt_prov (x : jdate) : val :=
   VTup [VInt ((jm x - 1) / 3 + 1); val_of_bool (1 <=? jy x); VInt (if 1 <=? jy x then jy x else 1 - jy x);
         VInt (days_in_month (is_leap (jy x)) (jm x)); VInt (jy x); VInt (jm x); VInt (jm x - 1);
         VInt (jd x); VInt (jd x - 1); VInt (jo x); VInt (jo x - 1); VInt (weekday_of_dn (jn x))].
-(* two weeks (date, first weekday) are the same week exactly when they start on the same day (a day
-   number, also when it lies just outside the range of dates at either end: the week is still the
-   seven days from there); comparing never fails; equal weeks hash equally (distinct weeks may
-   collide: no claim) *)
+(* two weeks (date, first weekday) are the same week exactly when they start on the same day; equal
+   weeks hash equally (distinct weeks may collide: no claim).  Weeks whose first day falls outside
+   the range of dates: no claim. *)
 Definition j_weq (args : list val) (out : val) : verdict :=
   match args with
   | [a; VInt w1; b; VInt w2] =>
@@ -175,9 +174,12 @@ Definition j_weq (args : list val) (out : val) : verdict :=
       | Some x, Some z =>
           if (0 <=? w1) && (w1 <=? 6) && (0 <=? w2) && (w2 <=? 6) then
             let f1 := week_first x w1 in let f2 := week_first z w2 in
-            if f1 =? f2 then judge_eq (VTup [VInt 1; VInt 0; VInt 1]) out
-            else if val_eqb out (VTup [VInt 0; VInt 1; VInt 0]) || val_eqb out (VTup [VInt 0; VInt 1; VInt 1]) then JOk
-            else JBad B"distinct-weeks-compare-equal-or-comparison-failed"
+            if dn_in_range f1 && dn_in_range f2 then
+              let e := f1 =? f2 in
+              if e then judge_eq (VTup [VInt 1; VInt 0; VInt 1]) out
+              else if val_eqb out (VTup [VInt 0; VInt 1; VInt 0]) || val_eqb out (VTup [VInt 0; VInt 1; VInt 1]) then JOk
+              else JBad B"distinct-weeks-compare-equal"
+            else JSkip
           else JSkip
       | _, _ => JSkip end
   | _ => JSkip
